@@ -240,6 +240,9 @@ func c14() []*Ob {
 		{Prop: "C14", ID: "C14.6", Engine: "DOM(evidence)", Floor: 2,
 			Desc:  "the LID-border predicate of a sealed fraction answers 'less or equal' only on evidence about that very position: sealedIDsIndex.LessOrEqual returns the constant true only when the lid is beyond the table, when the PREVIOUS block's minimum is already <= id (seq.LessOrEqual over MinBlockIDs[blockIndex-1]), or after comparing the position's own MID (GetMID(lid)) with id.MID — a shortcut taken from anything else makes the predicate non-monotone and the binary search of getLIDsBorders cuts documents of the requested range",
 			Check: func(c *Ctx) { lessOrEqualEvidence(c) }},
+		{Prop: "C14", ID: "C14.7", Engine: "PAIR", Floor: 1,
+			Desc:  "fractions are cut off by their time borders only in the order those borders were sorted in: List.Sort orders by the border (To for descending, From for ascending) that calcEnsuredIDsCount uses to declare the remaining fractions irrelevant (shared rule with C05.2 — with the wrong key a fraction whose range encloses the others is skipped although it holds older documents of the requested range)",
+			Check: func(c *Ctx) { sortKeyIsCutKey(c) }},
 		{Prop: "C14", ID: "C14.5", Engine: "PROV+ORDER", Floor: 1,
 			Desc: "the fetch window covers every requested id: fracmanager.sortIDs returns the minimum and maximum MID from the ends of the sorted copy (after sorting), and groupIDsByFraction passes exactly those to FilterInRange",
 			Check: func(c *Ctx) {
